@@ -219,15 +219,15 @@ PROPS = {
     'C11': dict(
         modules=['Resonate.Properties.C11'],
         tie_filter=r'promiseSelectAll|promiseUpdate|taskSelectAll|taskUpdate|lockTimeout|scheduleSelectAll|scheduleUpdate|taskSelectEnqueueable|shape|wiring',
-        harness=[sysdiff('sysdiff-converge', None, (20, 100), (400, 150), 'C11,C01', ['-smallcfg', '-routed', '50', '-fail', '10', '-crash', '1', '-known', 'F16,F18,F5'], (120, 120)),
+        harness=[sysdiff('sysdiff-converge', None, (20, 100), (400, 150), 'C11,C01', ['-smallcfg', '-routed', '50', '-fail', '10', '-crash', '1', '-known', 'F16,F18,F19,F5'], (120, 120)),
                  sysdiff('sysdiff-converge-collide', ['CreatePromise', 'CompletePromise', 'CreateCallback', 'CreateSubscription'], (8, 120), (150, 150), 'C11',
-                         ['-hostile', '-routed', '0', '-fail', '3', '-crash', '0', '-known', 'F2,F16,F18,F5'], (60, 120)),
+                         ['-hostile', '-routed', '0', '-fail', '3', '-crash', '0', '-known', 'F2,F16,F18,F19,F5'], (60, 120)),
                  dict(bin='stackrun', name='stackrun', quick=['-rounds', '45'], thorough=['-rounds', '1000'], search=['-rounds', '300'])],
         rule=SYS_RULE + '; after every script the clients stop and the server idles: each cycle advances the clock by the signal timeout and then ticks until nothing is in flight (every hand-off succeeds, '
              'no injected failure); batch sizes (promise / schedule / task 1..100), pool and queue sizes (down to 1), enqueue delay and signal timeout are drawn per script; the C11 monitor gives every '
              'item that needs attention (promise pending past its timeout, lock past its lease, enqueued / claimed task past its lease or timeout) a deadline in cycles when it is first seen — '
              '5*ceil(items ahead / batch) + 6, the factor 5 because the five sweeps take turns when the pool is small — and requires every schedule that is behind and whose period is longer than the '
-             'interval between two runs of SchedulePromises to reduce its lag within 12 cycles (the idle phase is extended until every lagging schedule has had that verdict); schedules that cannot catch up because occurrences fall due at least as fast as a run fires them (period <= run interval, or occurrences per run >= ScheduleBatchSize) are finding F16, schedules whose id template does not evaluate and the schedules they keep out of the batch are finding F18 (C11.skipped_batch_writes_nothing_F18 is the model-side statement); non-trivial = scripts whose idle phase ran to the end (counted)',
+             'interval between two runs of SchedulePromises to catch up: (A) the schedule with the oldest next run time advances at the next run, (B) the backlog of missed occurrences over all lagging schedules shrinks within the number of cycles the rate (fired per run - falling due per run) needs to show it (the idle phase is extended accordingly, up to 100 cycles); a late task is excused as finding F19 only when at least TaskBatchSize unclaimed tasks precede it in the sweep\'s order, and anything that cannot progress while a colliding completion block (finding F2) fails its store batch every cycle is counted as F2 collateral; schedules that cannot catch up because occurrences fall due at least as fast as a run fires them (period <= run interval, or occurrences per run >= ScheduleBatchSize) are finding F16, schedules whose id template does not evaluate and the schedules they keep out of the batch are finding F18 (C11.skipped_batch_writes_nothing_F18 is the model-side statement); non-trivial = scripts whose idle phase ran to the end (counted)',
         assumptions=['a cycle of the idle server completes (no store / router / transport failure during the idle phase; failures before it are part of the scripts)',
                      'the late-task clause is not checked when the enqueue delay is shorter than one cycle (a re-dispatched unclaimed task is then late again at once and the sweep batch is ordered by root)',
                      'unique promise / task ids and legal task states (hypotheses of the measure theorems; PromIds is proved over all runs)'],
@@ -244,7 +244,8 @@ PROPS = {
              'of every script, keeps the server running for 8*(outstanding+5) further rounds and requires exactly one response for every request submitted since the last crash; '
              'stackrun: the REAL system.Loop on its own goroutine with the REAL api / aio queues and the REAL store, router and sender worker goroutines, queue / batch / pool sizes 1..10, '
              '1..8 concurrent client goroutines, shutdown requested after a random number of submissions, transports answering from their own goroutines; no model (timing is not reproducible): '
-             'every request must be answered exactly once, the kernel must not stall, shutdown must complete; each round in a child process with a watchdog',
+             'every request must be answered exactly once, the kernel must not stall, shutdown must complete; each round in a child process with a watchdog; one round in six is a STORM: twelve clients submit 1500 cheap reads each in a tight loop '
+             'into an API queue with room for all of them while shutdown is requested from a goroutine of its own at an arbitrary moment, so that requests are caught inside EnqueueSQE at that instant (counted as storm_rounds)',
         assumptions=['request ids are distinct (the front ends draw a fresh id per request)', 'no process crash between submission and response (responses of in-flight requests die with the process: C06)',
                      'the kernel does not halt on a panic (C13)'],
         trusted_base=['kernel tick and coroutines are modelled by hand (Model/System, Model/Coroutines) and tied by sysdiff, which compares the response events of every step',
